@@ -12,7 +12,7 @@ SHARD_TIMEOUT = {"quick": 240, "thorough": 1500}
 
 
 def plan(tier, seed):
-    specs = sse.scheme_shards(tier, per_scheme_quick=2, per_scheme_thorough=4, budget_quick=14, budget_thorough=420)
+    specs = sse.scheme_shards(tier, per_scheme_quick=2, per_scheme_thorough=3, budget_quick=14, budget_thorough=270)
     # default-size configurations that the small grid never reaches: Pi2Lev's large case with B=b=B'=b'=64 needs a
     # list of more than 4096 postings; SSE-1 with its default 2^16 array; a DP17 / CT14 / ANSS16 database of a few
     # thousand postings (many levels)
